@@ -139,6 +139,13 @@ pub fn check(case: &Case, w: usize) -> CheckResult {
             env.install_command_symlink(&file, &format!("tools/linked/{}-{}.sh", c, nth), f != Some(&Fault::NotExecutable));
         } else {
             env.install_command(&file, f != Some(&Fault::NotExecutable));
+            if f != Some(&Fault::NotExecutable) {
+                // executable files come with all sorts of modes: for everybody, for the owner
+                // only (chmod u+x, umask 077), for owner and group, without write permission
+                use std::os::unix::fs::PermissionsExt;
+                let mode = [0o755, 0o700, 0o744, 0o750, 0o754, 0o711, 0o555, 0o500][nth % 8];
+                let _ = std::fs::set_permissions(env.path(&file), std::fs::Permissions::from_mode(mode));
+            }
         }
         let exit = match f {
             Some(Fault::Exit(k)) => *k,
